@@ -613,7 +613,13 @@ func (j *judge) checkRoundTrip(a aApp, app *sysl.Application) {
 	for _, td := range a.Types {
 		t, ok := app.GetTypes()[td.Name]
 		if !ok {
-			j.fail("roundtrip:missing-type:"+td.Kind, "after re-import type %s (%s) is gone", td.Name, td.Kind)
+			kind := td.Kind
+			if td.Kind == "alias" && td.Alias.Kind == "prim" {
+				kind = "alias-of-primitive"
+			} else if td.Kind == "alias" {
+				kind = "alias:" + tyDesc(*td.Alias)
+			}
+			j.fail("roundtrip:missing-type:"+kind, "after re-import type %s (%s) is gone", td.Name, td.Kind)
 			continue
 		}
 		switch td.Kind {
